@@ -764,7 +764,7 @@ func SpecContains(s string, sub string) bool { return false }
 //@   replay syncer_syncMeta
 //@   ghost var chCleared bool = false
 //@   requires nonnil: ri != nil && redisCli != nil
-//@   modifies heap, chCleared, outInCache, snapLeft, snapSize, outSpAsked, chId, chRight, chEmpty
+//@   modifies heap, chCleared, outInCache, snapLeft, snapSize, outSpAsked, chId, chRight, chEmpty, refusedBySource
 //@   ghost var outInCache bool = false
 //@   set chCleared = true at call DelRunId
 //@   set outInCache = result after call IsValidOffset
@@ -779,6 +779,9 @@ func SpecContains(s string, sub string) bool { return false }
 //@   set outSpAsked = result0.Offset after call getOutputStartPoint
 //@   assert at call pSync: continues_from_the_cache_end_only_if_the_cache_serves_the_target_position: offset.RunId != "?" ==> (offset.Offset == outSp.Offset && offset.RunId == outSp.RunId) || (offset.Offset == locSp.Offset && offset.RunId == locSp.RunId && (outInCache || outSp.RunId == "?"))
 //@   assert at call SetRunId: refused_or_unusable_cache_is_deleted_before_it_is_relabelled: isFullSync || clearLocal ==> chCleared
+//   refusedBySource  1 once the source has answered this connection's PSYNC with a full resync
+//@   ghost var refusedBySource mathint = 0
+//@   set refusedBySource = ite(isFullSync, 1, 0) after store isFullSync
 
 // ---- leader/follower: a follower's copy never mixes two replication histories (C16) --------
 // The follower's cache as an abstract object:
@@ -1044,3 +1047,10 @@ func SpecRdbBuffered(r *memoryRdb) int64 { panic("abstract spec function") }
 //@   replay syncer_rekeyPsync
 //@   modifies heap, curDb, cpDb, phase, replayFailed, rootReads, rootOff, rootRun, lastHashName, lastHashRun
 //@   assert at call UpdateCheckpoint: start_up_keeps_the_run_id_a_position_is_filed_under: lastHashName == "" || lastHashRun == "" || (len(arg2) >= 1 && arg2[0] == lastHashRun)
+
+// ---- a position the source has just refused to continue is withdrawn, never relabelled (C06) ----
+//@ func Output.SetRunId(self, ctx, runId) (err)
+//@   trusted abstract output: relabels the stored resume position to runId (keeps its offset)
+//@   requires the_source_continues_the_stored_position [C06]: refusedBySource == 0
+//@ func Output.DiscardStartPoint(self, ctx, runId) (err)
+//@   trusted abstract output: withdraws the stored resume position, then adopts runId
